@@ -114,7 +114,7 @@ pub struct Stats {
     pub upgrades_in_finalizer: u32,
     pub auto_collections: u32,
     pub known_sigs: BTreeMap<String, u32>,
-    pub counts: [u32; 5],
+    pub counts: [u32; NKINDS],
     /// property ids for which this case met the property's non-triviality rule
     pub nontrivial: BTreeSet<String>,
     /// free-form class labels of this case (for the class distribution)
@@ -272,7 +272,7 @@ pub struct World {
     pub op: i32,
     pub last_trace_ev: Option<u64>,
     pub faults: Vec<Fault>,
-    pub counts: [u32; 5],
+    pub counts: [u32; NKINDS],
     pub any_panic: bool,
     pub panicked_this_call: bool,
     pub exec_before: usize,
@@ -402,7 +402,7 @@ impl World {
             op: -1,
             last_trace_ev: None,
             faults,
-            counts: [0; 5],
+            counts: [0; NKINDS],
             any_panic: false,
             panicked_this_call: false,
             exec_before: 0,
@@ -451,8 +451,8 @@ impl World {
         let mut props: Vec<String> = props.iter().map(|s| s.to_string()).collect();
         // every safety rule that fires after a caught fault also counts for C07
         if self.any_panic {
-            let p0 = props[0].as_str();
-            if matches!(p0, "C01" | "C03" | "C05" | "C08") && !props.iter().any(|p| p == "C07") {
+            let safety = props.iter().any(|p| matches!(p.as_str(), "C01" | "C03" | "C05" | "C08"));
+            if safety && !props.iter().any(|p| p == "C07") {
                 props.push("C07".to_string());
             }
         }
@@ -882,6 +882,9 @@ unsafe impl Trace for Node {
         self.traced[0].trace(ctx);
         self.traced[1].trace(ctx);
         self.traced[2].trace(ctx);
+        if w(|w| fault_due(w, Kind::TraceEnd)) {
+            throw(Kind::TraceEnd);
+        }
     }
 }
 
